@@ -50,6 +50,7 @@ from pygls.exceptions import (
     JsonRpcException,
     JsonRpcInternalError,
     JsonRpcInvalidParams,
+    JsonRpcInvalidRequest,
     JsonRpcMethodNotFound,
     JsonRpcRequestCancelled,
 )
@@ -288,6 +289,10 @@ class JsonRPCProtocol:
 
         if not future:
             logger.warning('Received response to unknown message id "%s"', msg_id)
+            self._server._report_server_error(
+                JsonRpcInvalidRequest(f'Response to unknown message id "{msg_id}"'),
+                JsonRpcException,
+            )
             return
 
         if error is not None:
@@ -356,6 +361,9 @@ class JsonRPCProtocol:
 
         if message.jsonrpc != JsonRPCProtocol.VERSION:
             logger.warning('Unknown message "%s"', message)
+            self._server._report_server_error(
+                JsonRpcInvalidRequest("Unsupported JSON-RPC version"), JsonRpcException
+            )
             return
 
         if self._shutdown and getattr(message, "method", "") != EXIT:
